@@ -598,8 +598,29 @@ func execDSMatch(f []string) vlib.Res {
 	return vlib.Res{Impl: vlib.B(got), Oracle: or, Tags: joinTags("nt", tag, tt)}
 }
 
-// dsv verify <k;k;...> <d;d;...>   d = <ownerpres-hex>,<class>,<tag>,<alg>,<dt>,<digesttext-hex>
+// keyRefDigests is the RFC 4034 §5.1.4 digest of a key under types 1, 2, 4
+// ("-" where the key does not decode): the model's digest oracle column.
+func keyRefDigests(k *dns.DNSKEY) string {
+	parts := []string{"-", "-", "-"}
+	if kb, err := stdDecode(k.PublicKey); err == nil {
+		if ow, ok := packName(k.Hdr.Name); ok {
+			low, _, _ := lowerWireName(ow)
+			data := append(append(low, byte(k.Flags>>8), byte(k.Flags), k.Protocol, k.Algorithm), kb...)
+			for i, dt := range []uint8{1, 2, 4} {
+				parts[i] = vlib.Hex(dsRefDigest(dt, data))
+			}
+		}
+	}
+	return strings.Join(parts, ":")
+}
+
+// dsv verify <k;k;...> <d;d;...> <r;r;...>
+//
+//	d = <ownerpres-hex>,<class>,<tag>,<alg>,<dt>,<digesttext-hex>   r = <sha1>:<sha256>:<sha384> of key i
 func execVerifyDS(f []string) vlib.Res {
+	if len(f) != 5 {
+		return vlib.Res{Impl: "bad-op"}
+	}
 	var keys []*dns.DNSKEY
 	keyMap := map[uint16][]*dns.DNSKEY{}
 	for _, t := range splitList(f[2], ";") {
@@ -607,6 +628,15 @@ func execVerifyDS(f []string) vlib.Res {
 		keys = append(keys, k)
 		tag := dnssec.KeyTag(k)
 		keyMap[tag] = append(keyMap[tag], k)
+	}
+	refs := splitList(f[4], ";")
+	if len(refs) != len(keys) {
+		return vlib.Res{Impl: "bad-op"}
+	}
+	for i, k := range keys {
+		if keyRefDigests(k) != refs[i] {
+			return vlib.Res{Impl: "bad-op"}
+		}
 	}
 	var dss []*dns.DS
 	var set []dns.RR
@@ -621,8 +651,15 @@ func execVerifyDS(f []string) vlib.Res {
 	var err error
 	tt, slow := timed(func() { unsup, err = dnssec.VerifyDS(keyMap, set) })
 	got := err == nil
+	// the other two entry points must give the same verdict
+	unsup2, err2 := dnssec.VerifyDSWithWork(keyMap, set, nil)
+	anchored, unsup3, err3 := dnssec.VerifyDSAnchoredWithWork(keyMap, set, nil)
+
+	// reference: which (DS, key) pairs does DNSKEY.ToDS authenticate
 	supAlg := map[uint8]bool{5: true, 7: true, 8: true, 10: true, 13: true, 14: true, 15: true}
 	refAny, refPlain, anySupported := false, false, false
+	refAnchored := map[*dns.DNSKEY]bool{}   // keys a supported DS authenticates, narrowings applied
+	mayAnchor := map[*dns.DNSKEY]bool{}     // keys any DS authenticates in the library's eyes
 	for _, d := range dss {
 		sup := (d.DigestType == 1 || d.DigestType == 2 || d.DigestType == 4) && supAlg[d.Algorithm]
 		anySupported = anySupported || sup
@@ -633,9 +670,11 @@ func execVerifyDS(f []string) vlib.Res {
 				continue
 			}
 			refAny = true
+			mayAnchor[k] = true
 			// pairs the documented narrowings do not touch
 			if kb, err := stdDecode(k.PublicKey); sup && k.Protocol == 3 && k.Flags&256 != 0 && err == nil && len(kb) > 0 {
 				refPlain = true
+				refAnchored[k] = true
 			}
 		}
 	}
@@ -650,13 +689,46 @@ func execVerifyDS(f []string) vlib.Res {
 	case got:
 		tag = "accept"
 	}
-	if len(dss) > 0 && unsup != !anySupported {
-		or = fmt.Sprintf("FAIL sig=dsv/unsupported-only-flag got=%v", unsup)
+	// the verdict pair: "unsupported only" (the caller then treats the zone as insecure) exactly when
+	// the set is not empty and holds no DS of a supported digest type and algorithm - whatever else is
+	// wrong with a supported DS (no key, undecodable or mismatching digest) makes the zone bogus
+	wantUnsup := len(dss) > 0 && !anySupported
+	if unsup != wantUnsup {
+		or = fmt.Sprintf("FAIL sig=dsv/%s", map[bool]string{true: "bogus-ds-set-reported-unsupported-only", false: "unsupported-only-set-reported-bogus"}[unsup])
+	}
+	if unsup && err == nil {
+		or = "FAIL sig=dsv/unsupported-only-without-error"
+	}
+	if unsup2 != unsup || (err2 == nil) != got || unsup3 != unsup || (err3 == nil) != got {
+		or = "FAIL sig=dsv/entry-points-disagree"
+	}
+	if err3 == nil {
+		n := 0
+		for _, ks := range anchored {
+			for _, k := range ks {
+				n++
+				if !mayAnchor[k] {
+					or = "FAIL sig=dsv/anchors-key-no-ds-authenticates"
+				}
+			}
+		}
+		for k := range refAnchored {
+			found := false
+			for _, ks := range anchored {
+				for _, a := range ks {
+					found = found || a == k
+				}
+			}
+			if !found {
+				or = "FAIL sig=dsv/authenticated-key-not-anchored"
+			}
+		}
+		tag = joinTags(tag, fmt.Sprintf("anchored%d", min(n, 3)))
 	}
 	if slow {
 		or = "FAIL sig=dsv/super-linear"
 	}
-	return vlib.Res{Impl: fmt.Sprintf("unsup=%s err=%s", vlib.B(unsup), errEnum(err)), Oracle: or, Tags: joinTags("nt", tag, tt)}
+	return vlib.Res{Impl: fmt.Sprintf("unsup=%s ok=%s", vlib.B(unsup), vlib.B(got)), Oracle: or, Tags: joinTags("nt", tag, tt, "err:"+errEnum(err))}
 }
 
 // rsa vfy <alg> <pkhex> <signedhex> <hashedhex> <sighex>
